@@ -209,8 +209,33 @@ def run(ctx):
             rem = a[2]
             if not (rem[0] == "call" and rem[1].endswith("::get") and rem[2][0] == ("field", otherp, "remainders")):
                 probs.append("remainder argument %s is not read from other.remainders" % fmt(rem))
+        fifo_discipline(ctx, qu)
         ctx.check(len(calls) == 2 and not probs, "R06-quotient-transfer", qu.key, qu, "both re-insertion sites take the remainder from other.remainders at the slot being visited",
                   "; ".join(probs) or "%d insert_internal call sites (expected 2)" % len(calls))
+
+
+def fifo_discipline(ctx, qu):
+    """R06-quotient-fifo: every VecDeque local of quotient union is used as a queue: entries enter at one end and leave
+    at the other (push_back/pop_front or push_front/pop_back); anything else reorders the pending run quotients."""
+    ops = {}
+    for bi, t in qu.calls():
+        d = t.callee_decl() or ""
+        if d.startswith("std::collections::VecDeque::") and t.args and t.args[0].place is not None:
+            nm = t.callee_name()
+            if nm in ("push_back", "push_front", "pop_back", "pop_front", "insert", "remove", "swap", "rotate_left", "rotate_right", "make_contiguous", "retain", "truncate"):
+                from ..paths import Origins
+                o = Origins(qu).of_local(t.args[0].place.local)
+                key = repr(o) if o is not None else "?"
+                ops.setdefault(key, []).append((nm, t.span))
+    n = 0
+    for key, lst in sorted(ops.items()):
+        n += 1
+        names = {x[0] for x in lst}
+        good = names in ({"push_back", "pop_front"}, {"push_front", "pop_back"})
+        ctx.check(good, "R06-quotient-fifo", "%s:%s" % (qu.key, "pending-quotients"), lst[-1][1],
+                  "pending run quotients are queued and dequeued first-in first-out (%s)" % sorted(names),
+                  "the queue of pending run quotients is used with %s: runs of a cluster are re-inserted under the wrong quotient unless entries leave in the order they entered" % sorted(names))
+    ctx.floor("R06-quotient-fifo", n, 1, "VecDeque queues in quotient union")
 
 
 def loop_exits_only_on_exhaustion_or_err(fn, head):
